@@ -1,20 +1,50 @@
 #!/usr/bin/env python3
-"""print the markdown table of DESIGN §8.6 from seeded/*/meta.json"""
-import json, glob, os
-rows = []
-for d in sorted(glob.glob(os.path.join(os.path.dirname(__file__), "..", "seeded", "*", "meta.json"))):
-    m = json.load(open(d)); r = m.get("verification_run", {})
-    n = os.path.basename(os.path.dirname(d))
-    how = ""
+"""print the markdown tables of DESIGN §8.6 from seeded/*/meta.json: breaking changes (A..D) and behaviour-preserving
+refactorings (R1..R3)"""
+import json, glob, os, re
+
+
+def first_violation(r):
     for l in r.get("check_lines", []):
         if l.startswith("VIOLATION"):
             how = os.path.basename(l.split("replay=")[1].split()[0]).replace(".json", "")
             if "no-failing-input-found" in l:
                 how += " (no-failing-input-found)"
-            break
-    note = m.get("strengthened", "")
-    rows.append("| %s | %s | %s | %s | %s |" % (n, (m.get("title") or "").replace("|", "/")[:110], (m.get("needs_to_manifest") or "").replace("|", "/").replace("\n", " ")[:140],
-                                          ("caught: " + how) if r.get("caught") else "MISSED", note))
-print("| seed | change | needs to manifest | quick check of the property | check strengthened because of it |")
+            return how
+    return ""
+
+
+def cell(s, n):
+    return (s or "").replace("|", "/").replace("\n", " ")[:n]
+
+
+mut, ref = [], []
+for d in sorted(glob.glob(os.path.join(os.path.dirname(__file__), "..", "seeded", "*", "meta.json"))):
+    m = json.load(open(d))
+    r = m.get("verification_run", {})
+    n = os.path.basename(os.path.dirname(d))
+    if re.search(r"-R\d$", n):
+        if not r.get("patch_applies_on_main", True):
+            out = "patch does not apply on the current tree"
+        elif r.get("caught"):
+            out = "reported: " + first_violation(r)
+        else:
+            out = "silent (exit 0)"
+        ref.append("| %s | %s | %s | %s | %s |" % (n, cell(m.get("title"), 150), r.get("pinned_tests", "")[-7:], out, cell(m.get("refactor_note", ""), 400)))
+        continue
+    if m.get("obsolete"):
+        res = "obsolete"
+    elif r.get("caught"):
+        res = "caught: " + first_violation(r)
+    else:
+        res = "MISSED"
+    first = "yes" if m.get("first_try_caught", r.get("caught")) and not m.get("strengthened") else "no"
+    mut.append("| %s | %s | %s | %s | %s | %s |" % (n, cell(m.get("title"), 110), cell(m.get("needs_to_manifest"), 140), res, first,
+                                                cell(m.get("strengthened") or m.get("obsolete"), 600)))
+print("| seed | change | needs to manifest | quick check of the property (current tree) | caught at the first try | check strengthened because of it / note |")
+print("|---|---|---|---|---|---|")
+print("\n".join(mut))
+print()
+print("| refactoring | change (behaviour-preserving) | pinned tests | quick check of the property | note |")
 print("|---|---|---|---|---|")
-print("\n".join(rows))
+print("\n".join(ref))
